@@ -72,22 +72,24 @@ def dictpile_obligations(repo, chk, rule):
     the default (ABSENT) is returned only when no dict contains it."""
     import ast
     from ..core import norm, walk_local
+    from ..astq import facts_of
+    from ..core import order
     gi = repo.func("utils.DictPile.__getitem__")
+    fgi = facts_of(gi)
     loops = [n for n in walk_local(gi.node) if isinstance(n, ast.For) and norm(n.iter) == "self.dicts"]
     ok = False
     why = "no loop over self.dicts"
+    item = gi.node.args.args[1].arg
     if len(loops) == 1:
         lp = loops[0]
         d = norm(lp.target)
-        item = gi.node.args.args[1].arg
-        body = lp.body
-        ok = (len(body) == 1 and isinstance(body[0], ast.If) and norm(body[0].test) == f"{item} in {d}" and not body[0].orelse
-              and len(body[0].body) == 1 and isinstance(body[0].body[0], ast.Return) and norm(body[0].body[0].value) == f"{d}[{item}]")
-        why = f"loop body is `{' '.join(norm(b) for b in body)[:90]}`"
+        hits = [n for t, c, n in fgi.items if isinstance(n, ast.Return) and fgi.loops(n) == [f"for {d} in self.dicts"]]
+        ok = len(hits) == 1 and fgi.has(f"return {d}[{item}]", exactly=[f"{item} in {d}"]) and not any(isinstance(n, (ast.Break, ast.Continue, ast.Assign, ast.AugAssign)) for n in ast.walk(lp))
+        why = f"returns inside the loop: {[(norm(n), [c for t, c, m in fgi.items if m is n][0]) for n in hits]}"
     chk.ob(rule, "utils.DictPile.__getitem__:first-dict-containing-the-key", ok, gi.where,
            f"a name is taken from the first dict that contains it, by membership, whatever its value (a global that is None or falsy is still defined): {why}")
-    tail = [n for n in gi.node.body if not isinstance(n, ast.For) and not (isinstance(n, ast.Expr) and isinstance(n.value, ast.Constant))]
-    ok = len(tail) == 1 and isinstance(tail[0], ast.If) and norm(tail[0].test) == "self.default is _MISSING" and isinstance(tail[0].body[0], ast.Raise) \
-        and isinstance(tail[0].orelse[0], ast.Return) and norm(tail[0].orelse[0].value) == "self.default"
+    dflt = fgi.find("return self.default", exactly=["self.default is not _MISSING"])
+    ok = len(loops) == 1 and len(dflt) == 1 and not fgi.loops(dflt[0]) and order(dflt[0]) > order(loops[0]) \
+        and any(isinstance(n, ast.Raise) and set(c) == {"self.default is _MISSING"} and order(n) > order(loops[0]) for t, c, n in fgi.items)
     chk.ob(rule, "utils.DictPile.__getitem__:default-only-when-absent-everywhere", ok, gi.where,
            "the default (the ABSENT marker for generated code) is returned only after every dict was searched")
